@@ -421,6 +421,8 @@ type Gen struct {
 	// value: it starts at pattern k and advances with every scalar generated, so the first values of every type walk
 	// through all boundary patterns instead of leaving them to chance. 0: random.
 	Sweep int
+	// Ctor = k+1 (k >= 0) makes the top-level value of a tagged union take its k-th constructor (mod their number)
+	Ctor int
 	calls int
 }
 
@@ -478,6 +480,10 @@ func getBigStruct(v reflect.Value) *big.Int {
 func (g *Gen) Fill(v reflect.Value, tag string, depth int) {
 	t := v.Type()
 	if depth > 9 { // recursive types: stop; the zero value either encodes or is refused with an error
+		// ... but an enumeration has no zero value: the empty name is outside its domain
+		if vals, ok := Enums[regName(t)]; ok && v.Kind() == reflect.String {
+			v.SetString(vals[g.Rng.Intn(len(vals))])
+		}
 		return
 	}
 	if t == tMagic {
@@ -573,6 +579,9 @@ func (g *Gen) Fill(v reflect.Value, tag string, depth int) {
 			return
 		}
 		i := idx[g.Rng.Intn(len(idx))]
+		if g.Ctor > 0 && depth == 0 {
+			i = idx[(g.Ctor-1)%len(idx)]
+		}
 		v.FieldByName("SumType").SetString(t.Field(i).Name)
 		g.Fill(v.Field(i), "", depth+1)
 	case kSeq, kOpaque:
@@ -601,6 +610,9 @@ func (g *Gen) Fill(v reflect.Value, tag string, depth int) {
 			}
 			if len(idx) > 0 {
 				i := idx[g.Rng.Intn(len(idx))]
+				if g.Ctor > 0 && depth == 0 {
+					i = idx[(g.Ctor-1)%len(idx)]
+				}
 				v.FieldByName("SumType").SetString(t.Field(i).Name)
 				g.Fill(v.Field(i), "", depth+1)
 			}
@@ -835,6 +847,23 @@ func payloadGen(known map[string]any, code func(string) (uint32, bool), unknown 
 			v.FieldByName("Value").Set(val)
 		}
 	}
+}
+
+// Constructors: the number of alternatives of a tagged-union shaped struct type (0 for other types).
+func Constructors(t reflect.Type) int {
+	if t.Kind() != reflect.Struct {
+		return 0
+	}
+	if _, ok := t.FieldByName("SumType"); !ok {
+		return 0
+	}
+	n := 0
+	for i := 0; i < t.NumField(); i++ {
+		if t.Field(i).Type != tSum && t.Field(i).IsExported() {
+			n++
+		}
+	}
+	return n
 }
 
 // New returns a new random value of type t (addressable).
